@@ -246,11 +246,27 @@ pub proof fn lemma_floor_div_props(x: int, y: int)
         floor_quot(x, y) * y + floor_rem(x, y) == x,
         y > 0 ==> 0 <= floor_rem(x, y) < y,
         y < 0 ==> y < floor_rem(x, y) <= 0,
+        y > 0 && x >= 0 ==> 0 <= floor_quot(x, y) <= x,
+        y > 0 && x < 0 ==> x <= floor_quot(x, y) < 0,
+        y > 0 && x >= 0 && floor_rem(x, y) != 0 ==> 2 * floor_quot(x, y) <= x,
 {
     if y > 0 {
+        let q = x / y;
+        let r = x % y;
         vstd::arithmetic::div_mod::lemma_fundamental_div_mod(x, y);
         vstd::arithmetic::div_mod::lemma_mod_bound(x, y);
-        assert((x / y) * y == y * (x / y)) by (nonlinear_arith);
+        assert(q * y == y * q) by (nonlinear_arith);
+        if x >= 0 {
+            assert(q >= 0) by (nonlinear_arith) requires x == y * q + r, 0 <= r < y, x >= 0, y > 0;
+            assert(q <= x) by (nonlinear_arith) requires x == y * q + r, 0 <= r, q >= 0, y >= 1;
+            if r != 0 {
+                assert(y >= 2);
+                assert(2 * q <= x) by (nonlinear_arith) requires x == y * q + r, 0 <= r, q >= 0, y >= 2;
+            }
+        } else {
+            assert(q < 0) by (nonlinear_arith) requires x == y * q + r, 0 <= r < y, x < 0, y > 0;
+            assert(x <= q) by (nonlinear_arith) requires x == y * q + r, 0 <= r < y, x < 0, y >= 1, q < 0;
+        }
     } else {
         let q = (-x) / (-y);
         let r = (-x) % (-y);
